@@ -39,8 +39,15 @@ We can check the Eckmann-Hilton argument, up to interchanger.
     :align: center
 """
 
+import os
+
 from discopy import cat, messages, drawing, rewriting
 from discopy.cat import Ob
+
+# Verification hook (off unless DISCOPY_VERIF=1): a callback installed by an
+# external checker, called with the arguments of every Diagram built on the
+# trusted fast path (i.e. with caller-supplied ``layers``).
+_verif_rescan = None
 
 
 class Ty(Ob):
@@ -350,6 +357,9 @@ class Diagram(cat.Arrow):
                     if layers else dom[off + len(box.dom):]
                 layers = layers >> Layer(left, box, right)
             layers = layers >> cat.Id(cod)
+        elif _verif_rescan is not None\
+                and os.environ.get("DISCOPY_VERIF") == "1":
+            _verif_rescan(dom, cod, boxes, offsets, layers)
         self._layers, self._offsets = layers, tuple(offsets)
         super().__init__(dom, cod, boxes, _scan=False)
 
